@@ -60,7 +60,10 @@ def tString : Nat := 14
 decoder is exercised: (pen, id, FieldID, FieldType). The theorems never unfold `lookupElem`. -/
 def extElems : List (Nat × Nat × Nat × Nat) :=
   [(9999, 1, 1, 3), (9999, 2, 2, 14), (9999, 3, 3, 20), (9999, 4, 4, 13),
-   (9999, 5, 5, 11), (9999, 6, 6, 8), (9999, 7, 7, 12), (31337, 100, 100, 1)]
+   (9999, 5, 5, 11), (9999, 6, 6, 8), (9999, 7, 7, 12), (31337, 100, 100, 1),
+   -- signed8 / signed16 / signed32 / float32: no IANA element of the built-in table has these types, so the
+   -- decoders reach those arms of `Interpret` (and its sign extension of over-long fields, F24) only through these
+   (9999, 8, 8, 5), (9999, 9, 9, 6), (9999, 10, 10, 7), (9999, 11, 11, 9)]
 
 /-- the FieldType index a type name resolves to through the generated `FieldTypes` map; a missing
 name gives 0 (`Unknown`), as the Go map lookup does on both load paths -/
@@ -95,9 +98,31 @@ deriving Repr, DecidableEq
 /-- two's-complement reinterpretation (`int8(x)`, `int16(x)`, …) -/
 def signed (n bound : Nat) : Int := if n ≥ bound / 2 then (n : Int) - bound else n
 
-/-- `Interpret(&b, t)`: the integer conversions read the first K octets (`binary.BigEndian.UintK`) -/
+/-- the unsigned integer types `Uint8 … Uint64` (FieldType 1..4) / the signed ones `Int8 … Int64` (5..8):
+the two `case` lists of the over-long branch of `Interpret` (tied to `Gen.InterpretTbl.interpretWide` in Props.C20) -/
+def isUintT (t : Nat) : Bool := t == 1 || t == 2 || t == 3 || t == 4
+def isIntT (t : Nat) : Bool := t == 5 || t == 6 || t == 7 || t == 8
+
+/-- `wideUint` (F24 repair): more than 8 octets are returned as they are; otherwise
+`for _, x := range b { v = v<<8 | uint64(x) }` — no overflow with at most 8 octets — is the big-endian value -/
+def wideUint (b : Bytes) : Val :=
+  if b.length > 8 then .raw b else .u64 (beN b)
+
+/-- `wideInt` (F24 repair): `shift := uint(64 - 8*len(b)); int64(v<<shift) >> shift` transcribed: the left
+shift wraps at 64 bits, `int64(·)` reinterprets, `>>` on a signed operand is the flooring division -/
+def wideInt (b : Bytes) : Val :=
+  if b.length > 8 then .raw b else
+  .i64 (signed ((beN b * 2 ^ (64 - 8 * b.length)) % 18446744073709551616) 18446744073709551616
+          / ((2 ^ (64 - 8 * b.length) : Nat) : Int))
+
+/-- `Interpret(&b, t)`: a field shorter than the type's size is returned as it is; (since the F24 repair) an
+integer field LONGER than the type's size is the value of all of its octets (`wideUint` / `wideInt`); a field of
+the type's size — and, for the other types, a longer one — goes through the switch, whose conversions read the
+first K octets (`(*b)[0]`, `binary.BigEndian.UintK`) -/
 def interpret (b : Bytes) (t : Nat) : Val :=
   if b.length < minLen t then .raw b else
+  if b.length > minLen t && isUintT t then wideUint b else
+  if b.length > minLen t && isIntT t then wideInt b else
   match t with
   | 11 => .bool (b.headD 0 == 1)
   | 1 => .u8 (beN (b.take 1))
